@@ -22,6 +22,8 @@ func init() {
 			{ID: "C04.1", Desc: "Vary read through all field lines", Run: func(c *Ctx) { ruleRLIST(c, "C04.1", "Vary") }, MinSites: 1},
 			{ID: "C04.2", Desc: "`*` tested per member", Run: ruleC04_2, MinSites: 1},
 			{ID: "C04.3", Desc: "variant id input is delimited", Run: ruleC04_3, MinSites: 1},
+			{ID: "C04.9", Desc: "the key an entry is stored under is a function of its variant only", Run: func(c *Ctx) { ruleIDPure(c, "C04.9") }, MinSites: 1},
+			{ID: "C04.10", Desc: "nominated values survive the JSON index unchanged or through an injective ASCII encoding (a lossy replacement merges distinct values)", Run: func(c *Ctx) { ruleIndexValuesUTF8Safe(c, "C04.10") }, MinSites: 1},
 			{ID: "C04.8", Desc: "the Vary resolver hands on every member of the list (a `*` member must reach the index)", Run: ruleC04_8, MinSites: 1},
 			{ID: "C04.4", Desc: "one normaliser on both sides", Run: func(c *Ctx) { ruleOneNormaliser(c, "C04.4") }, MinSites: 1},
 			{ID: "C04.5", Desc: "all nominated fields compared", Run: ruleC04_5, MinSites: 2},
@@ -416,6 +418,25 @@ func ruleOneNormaliser(c *Ctx, rule string) {
 	}
 	s1 := collect(c.A.F("storeResp"))
 	s2 := collect(c.A.F("varyMatchOne"))
+	// the matcher's own call (through its interface field and the forwarding adapter): reachability alone is blurred by
+	// the shared list iterator, whose yield is context-insensitive
+	direct := map[string]bool{}
+	instrsOf(c.A.F("varyMatchOne"), func(in ssa.Instruction) {
+		ci, ok := in.(ssa.CallInstruction)
+		if !ok {
+			return
+		}
+		for _, cal := range c.P.Callees(ci) {
+			for _, t := range append([]*ssa.Function{cal}, c.An.AdapterTargets(cal)...) {
+				if isNorm(t) {
+					direct[c.P.ShortName(t)] = true
+				}
+			}
+		}
+	})
+	if len(direct) > 0 {
+		s2 = sortedKeys(direct)
+	}
 	desc := "the storing side and the matching side normalise nominated request values with the same single function"
 	ex := []string{"store side: " + strings.Join(s1, ","), "match side: " + strings.Join(s2, ",")}
 	if len(s1) == 1 && len(s2) == 1 && s1[0] == s2[0] {
